@@ -22,9 +22,11 @@
      quote     [name]                      -> ninja_quote(name, is_build_line=True)
      runname   [subproject; name]          -> build_run_target_name
      relpath   [target; start]             -> os.path.relpath of two normalised relative paths ("." for empty)
+     unity     [unity_size; src; ...]      -> objects compiled 1 objects extract_all_objects lists (as is) 1 (after the repair);
+                 src = name 1 T|F (can join a unity file); objects 2-separated, sorted: U<i> | S<name>
      ppsrc     [T|F flat; subdir; name; o] -> where a user of compiler.preprocess() output o reads it 1 where it is produced
 *)
-From MV Require Import Base.Strs Graph.Manifest Graph.Check Graph.Mech Graph.Ending Graph.Quote Graph.Glue.
+From MV Require Import Base.Strs Graph.Manifest Graph.Check Graph.Mech Graph.Ending Graph.Quote Graph.Glue Graph.Unity.
 Open Scope N_scope.
 
 Definition S1 : str := [1].
@@ -139,6 +141,13 @@ Definition parse_test (s : str) : test :=
   mkTest (parse_obj 4 (nth_field f 0)) (map (parse_obj 4) (split_list (nth_field f 1)))
          (map (parse_obj 4) (split_list (nth_field f 2))).
 
+(* ---- unity objects on the wire *)
+Definition parse_usrc (s : str) : usrc :=
+  let f := split_on 1 s [] in (nth_field f 0, str_eqb (nth_field f 1) (s2l "T")).
+Definition render_uobj (o : uobj) : str :=
+  match o with UUnity i => 85 :: N_dec (N.of_nat i) | USep n => 83 :: n end.
+Definition render_uobjs (l : list uobj) : str := join S2 (ssort (map render_uobj l)).
+
 Definition run (fn : str) (args : list str) : str :=
   if str_eqb fn (s2l "parse") then
     match args with [t] => render_parse (parse_manifest t) | _ => s2l "?" end
@@ -188,6 +197,14 @@ Definition run (fn : str) (args : list str) : str :=
     | _ => s2l "?" end
   else if str_eqb fn (s2l "quote") then
     match args with [n] => ninja_quote_build n | _ => s2l "?" end
+  else if str_eqb fn (s2l "unity") then
+    match args with
+    | sz :: srcs =>
+        let size := N.to_nat (digits_val sz) in
+        let l := map parse_usrc srcs in
+        join S1 [render_uobjs (compiled_objects l size); render_uobjs (extracted_objects l size);
+                 render_uobjs (extracted_objects_fixed l size)]
+    | _ => s2l "?" end
   else if str_eqb fn (s2l "runname") then
     match args with [sp; n] => run_target_name (mkRT sp n) | _ => s2l "?" end
   else if str_eqb fn (s2l "relpath") then
